@@ -104,6 +104,12 @@ def evaluate(ctx, checks, kind, sample, runner, st, info0):
         mem = st.mem
         if kind.style == "id3":
             mem = [m for m in mem if not (m[0][0] == "T" and m[0] != "TXXX" and dict(m[2]).get("text") in ("[]", "['']"))]
+            if kind.family == "id3" and W.id3v1_at_end(st.after):
+                # documented merge: the comment field of an ID3v1 tag is loaded as a separate frame
+                # 'COMM:ID3v1 Comment:eng' (upstream keeps COMM frames with different HashKeys apart)
+                mem = [m for m in mem if m[1] != "COMM:ID3v1 Comment:eng"]
+                if isinstance(re, list):
+                    re = [m for m in re if m[1] != "COMM:ID3v1 Comment:eng"]
             if st.v2 == 3:
                 mem = None          # v2.3 conversions are C13's subject; here only the independent decoding is compared
         if kind.style == "ape" and mem == []:
